@@ -187,7 +187,8 @@ def run(tier, rep):
         lreq.append({"id": len(lreq), "mode": "ast", "text": text})
         lmeta.append(((sp, kind, ty, val), text, "num"))
     # multi-line strings: lines verbatim, joined by LF
-    for lines in (["a", "b"], ['q"uote', "back\\slash"], ["", ""], ["tab\there", "é"], ["x", "", "z"]):
+    for lines in (["a", "b"], ['q"uote', "back\\slash"], ["", ""], ["tab\there", "é"], ["x", "", "z"], ["trailing space ", "trailing tab\t", "   ", "end"],
+                  [" leading", "\t\tindented", "both "], ["\\\\ looks like an introducer", "//not a comment"]):
         text = "fn main() {\n    let _ = " + "\n        ".join("\\\\" + ln for ln in lines) + "\n    ;\n    ()\n}\n"
         lreq.append({"id": len(lreq), "mode": "ast", "text": text})
         lmeta.append((("\n".join(lines)).encode("utf-8"), text, "multiline"))
